@@ -1,5 +1,6 @@
 """C16 - link-format writer and parser agree on quoting, escaping and
 separators (structural necessary conditions of the round trip)."""
+import json
 from harness import *
 import interp
 
@@ -137,6 +138,41 @@ def check(env, rep, tier):
                     inq.add((lb["id"], h_))
         for nm, tag in ((P, "link-scanner"), (A, "attr-scanner")):
             linkfmt.check_scanner(prog, rep, bodies[nm], inq, tag, site(bodies[nm]))
+            # outside a quoted string no character is consumed unseen: the result of every Chars::next is looked at
+            # (only the character after a backslash, inside the in-quote loop, is skipped blind)
+            import interp as _interp
+            sb = bodies[nm]
+            info_ = _interp.BodyInfo(sb)
+            inq_blocks = set()
+            for (bid, h_) in inq:
+                if bid == sb["id"] and h_ in info_.loops:
+                    inq_blocks |= set(info_.loops[h_])
+            blind = []
+            for bi, bb in enumerate(sb["blocks"]):
+                t = bb["term"]
+                if t["k"] != "call" or bb.get("cleanup") or bi in inq_blocks:
+                    continue
+                pth = (t.get("resolved") or t.get("callee") or {}).get("path", "") or ""
+                if not (pth.startswith("<core::str::iter::Chars") and pth.endswith("::next")):
+                    continue
+                d = t["dest"]["l"] if t.get("dest") and not t["dest"]["p"] else None
+                if d is None:
+                    continue
+                used = False
+                for b2 in sb["blocks"]:
+                    if b2.get("cleanup"):
+                        continue
+                    txt = json.dumps([b2["stmts"], {k: v for k, v in b2["term"].items() if k != "dest"}])
+                    if ('"l": %d' % d) in txt and not (b2 is bb and txt.count('"l": %d' % d) == 0):
+                        # any mention other than as this call's destination counts as a look
+                        if b2 is not bb or txt.count('"l": %d' % d) >= 1:
+                            used = True
+                            break
+                if not used:
+                    blind.append(bb["tspan"]["l"])
+            rep.ob("C16.5", "%s|no-blind-read" % tag, not blind,
+                   "%s consumes a character outside a quoted string without looking at it (line %s): when that character is a separator, "
+                   "the next item is swallowed" % (nm, blind), site(sb))
         linkfmt.check_unquote(prog, rep, bodies[U], site(bodies[U]))
         acalls = [(bb["term"].get("resolved") or bb["term"].get("callee") or {}) for bb in bodies[A]["blocks"] if bb["term"]["k"] == "call" and not bb["cleanup"]]
         eq_find = False
